@@ -15,3 +15,11 @@ def check(run, only=None):
         results = fw.pmap(impmon.imp_worker, [("C20", c, params) for c in impmon.cases()], chunksize=1)
         out = fw.merge_worker_results(results, RULE.format(m=params["max_len"]))
         run.add_bounded(out)
+    if only in (None, "P"):
+        from vlib.props import pcommon
+        from vlib.companions import parserfuncs as pf
+        import contracts.imports as ci
+        pcommon.add_proof(run, "C20", ci.IMPORTS_C20, [pf.run_fqn],
+                          "qualified names: the name of an import is the dotted path of module names along the chain of "
+                          "first imports, outermost first; a symbol's qualified name is that path followed by its own name "
+                          "(PGFileImport.fqn, GrammarSymbol.fqn against a recursively defined specification function)")
